@@ -71,6 +71,9 @@ def main(argv=None):
     if args.max_cases:
         case_list = case_list[: args.max_cases]
     budget = getattr(mod, "BUDGET", {"quick": 60, "thorough": 600})[args.tier] * max(1, rounds)
+    # the budget caps a run, it is not part of a verdict: on a loaded machine (other checks, other users on the same cores) a tight
+    # cap would cut the generators short and turn into INCONCLUSIVE verdicts on floors; the caps are therefore generous
+    budget = max(budget, 300) * float(os.environ.get("VERIF_BUDGET_FACTOR", "2"))
     jobs = max(1, min(args.jobs, len(case_list)))
     work = tempfile.mkdtemp(prefix="vt-%s-" % prop, dir="/dev/shm" if os.path.isdir("/dev/shm") else None)
     inconclusive = []
